@@ -1380,6 +1380,13 @@ func (e *Engine) bytesEq(st *State, a, b Slice) *Term {
 	if a.Obj == b.Obj && a.Off == b.Off {
 		return lenEq
 	}
+	// two complete hex strings are equal iff the bytes they encode are (hex is injective)
+	if ha, hb := st.obj(a.Obj).HexSrc, st.obj(b.Obj).HexSrc; ha != nil && hb != nil && a.Obj != b.Obj &&
+		a.Off.IsConst() && a.Off.C == 0 && b.Off.IsConst() && b.Off.C == 0 && a.Len == st.obj(a.Obj).Len && b.Len == st.obj(b.Obj).Len {
+		ida := st.newBytes(ha.Arr, BVAdd(ha.Off, ha.Len))
+		idb := st.newBytes(hb.Arr, BVAdd(hb.Off, hb.Len))
+		return e.bytesEq(st, Slice{Obj: ida, Off: ha.Off, Len: ha.Len, Cap: ha.Len}, Slice{Obj: idb, Off: hb.Off, Len: hb.Len, Cap: hb.Len})
+	}
 	n := a.Len
 	if !n.IsConst() && b.Len.IsConst() {
 		n = b.Len
